@@ -5,7 +5,45 @@
 
 package bitmap
 
+// ---- package tables (filled once by init, read-only afterwards) ----
+
 //@ global Mask: forall j int :: 0 <= j && j <= 64 ==> Mask[j] == lowmask(j)
+//@ global RMask: forall j int :: 0 <= j && j <= 64 ==> RMask[j] == ^lowmask(j)
+//@ global MaskUpto: forall j int :: 0 <= j && j < 64 ==> MaskUpto[j] == lowmask(j+1)
+//@ global RMaskUpto: forall j int :: 0 <= j && j < 64 ==> RMaskUpto[j] == ^lowmask(j+1)
+//@ global Bit: forall j int :: 0 <= j && j < 64 ==> Bit[j] == uint64(1) << uint64(j)
+//@ global RBit: forall j int :: 0 <= j && j < 64 ==> RBit[j] == ^(uint64(1) << uint64(j))
+
+//@ func init#1
+//@   initphase
+//@   assigns Mask, RMask, MaskUpto, RMaskUpto, Bit, RBit, select8Lookup
+//@   establishes globals
+
+//@ func initMasks
+//@   initphase
+//@   assigns Mask, RMask, MaskUpto, RMaskUpto, Bit, RBit
+//@   ensures forall j int :: 0 <= j && j <= 64 ==> Mask[j] == lowmask(j)
+//@   ensures forall j int :: 0 <= j && j <= 64 ==> RMask[j] == ^lowmask(j)
+//@   ensures forall j int :: 0 <= j && j < 64 ==> MaskUpto[j] == lowmask(j+1)
+//@   ensures forall j int :: 0 <= j && j < 64 ==> RMaskUpto[j] == ^lowmask(j+1)
+//@   ensures forall j int :: 0 <= j && j < 64 ==> Bit[j] == uint64(1) << uint64(j)
+//@   ensures forall j int :: 0 <= j && j < 64 ==> RBit[j] == ^(uint64(1) << uint64(j))
+//@   loop 1
+//@     invariant 0 <= i && i <= 65
+//@     invariant forall j int :: 0 <= j && j < i ==> Mask[j] == lowmask(j) && RMask[j] == ^lowmask(j)
+//@   loop 2
+//@     invariant 0 <= i && i <= 64
+//@     invariant forall j int :: 0 <= j && j <= 64 ==> Mask[j] == lowmask(j) && RMask[j] == ^lowmask(j)
+//@     invariant forall j int :: 0 <= j && j < i ==> MaskUpto[j] == lowmask(j+1) && RMaskUpto[j] == ^lowmask(j+1)
+//@     invariant forall j int :: 0 <= j && j < i ==> Bit[j] == uint64(1) << uint64(j) && RBit[j] == ^(uint64(1) << uint64(j))
+
+//@ func initSelectLookup
+//@   initphase
+//@   assigns select8Lookup
+//@   loop 1
+//@     invariant 0 <= i && i <= 256
+//@   loop 2
+//@     invariant 0 <= j && j <= 8 && 0 <= i && i < 256
 
 //@ func Rank64 returns (c, b)
 //@   requires len(words) < 1<<25
@@ -44,3 +82,68 @@ package bitmap
 //@   ensures c == rank(words, i)
 //@   ensures b == bitAt(words, i)
 //@   assigns nothing
+
+// ---- C13: NextOne / PrevOne ----
+
+//@ func NextOne returns (r)
+//@   requires len(bm) < 1<<25
+//@   requires 0 <= i && i <= end && int(end) <= 64*len(bm) && int(i) < 64*len(bm)
+//@   ensures r == -1 || (i <= r && r < end && bitAt(bm, r) == 1)
+//@   ensures forall q int32 :: i <= q && q < end && (r == -1 || q < r) ==> bitAt(bm, q) == 0
+//@   assigns nothing
+//@   loop 1
+//@     invariant i&63 == 0 && old(i) <= i && i <= end + 63 && nxt == -1
+//@     invariant forall q int32 :: old(i) <= q && q < i ==> bitAt(bm, q) == 0
+
+//@ func PrevOne returns (r)
+//@   requires len(bm) < 1<<25
+//@   requires 0 <= i && i <= end && int(end) <= 64*len(bm) && int(i) < 64*len(bm) && end >= 1
+//@   ensures r == -1 || (i <= r && r < end && bitAt(bm, r) == 1)
+//@   ensures forall q int32 :: i <= q && q < end && q > r ==> bitAt(bm, q) == 0
+//@   assigns nothing
+//@   loop 1
+//@     invariant end&63 == 63 && -1 <= end && end < old(end) && prv == -1
+//@     invariant forall q int32 :: end < q && q < old(end) ==> bitAt(bm, q) == 0
+
+// ---- C12 / C14: single-bit and w-bit reads ----
+
+//@ func Get returns (r)
+//@   requires len(bm) < 1<<25 && 0 <= i && int(i) < 64*len(bm)
+//@   ensures r == uint64(bitAt(bm, i)) << uint64(i&63)
+//@   assigns nothing
+
+//@ func Get1 returns (r)
+//@   requires len(bm) < 1<<25 && 0 <= i && int(i) < 64*len(bm)
+//@   ensures r == uint64(bitAt(bm, i))
+//@   assigns nothing
+
+//@ func SafeGet returns (r)
+//@   requires len(bm) < 1<<25
+//@   ensures 0 <= i && int(i) < 64*len(bm) ==> r == uint64(bitAt(bm, i)) << uint64(i&63)
+//@   ensures !(0 <= i && int(i) < 64*len(bm)) ==> r == 0
+//@   assigns nothing
+
+//@ func SafeGet1 returns (r)
+//@   requires len(bm) < 1<<25
+//@   ensures 0 <= i && int(i) < 64*len(bm) ==> r == uint64(bitAt(bm, i))
+//@   ensures !(0 <= i && int(i) < 64*len(bm)) ==> r == 0
+//@   assigns nothing
+
+//@ func Getw returns (r)
+//@   requires len(bm) < 1<<25 && isWidth(int(w))
+//@   requires 0 <= i && (int(i)+1)*int(w) <= 64*len(bm)
+//@   ensures r == getw(bm, int(i), int(w))
+//@   assigns nothing
+
+//@ func Slice returns (r)
+//@   requires len(words) < 1<<25
+//@   requires 0 <= from && from <= to && int(to) <= 64*len(words)
+//@   ensures len(r) == (int(to-from)+63)>>6
+//@   ensures forall q int32 :: 0 <= q && q < to-from ==> bitAt(r, q) == bitAt(words, from+q)
+//@   ensures forall q int32 :: to-from <= q && int(q) < 64*len(r) ==> bitAt(r, q) == 0
+//@   ensures fresh(r)
+//@   assigns nothing
+//@   loop 1
+//@     invariant from <= i && i <= to
+//@     invariant forall q int32 :: 0 <= q && q < i-from ==> bitAt(r, q) == bitAt(words, from+q)
+//@     invariant forall q int32 :: i-from <= q && int(q) < 64*len(r) ==> bitAt(r, q) == 0
